@@ -876,6 +876,13 @@ def run(chk: core.Check) -> int:
          "cols": [["what", "String", "what happened", False, None], ["_seq", "Integer", "sequence number", True, None]]},
         {"cls": "Line", "table": "line", "tkind": "snake", "doc": "An order line", "pk_kind": "explicit-last", "crud": "CD", "route": "/api/line", "prefix": "/api",
          "cols": [["qty", "Integer", "quantity", False, None], ["__secret", "String", None, False, None], ["n\u00famero", "Integer", "line number", True, None]]}]})
+    # fixed corners after the round-7 seeded misses: a route that is a string prefix of an earlier model's route (both orders), in one routes file;
+    # a second Bottle app whose routes live in the same file
+    for k_, (first, second) in enumerate(((("UserGroup", "usergroup"), ("User", "user")), (("User", "user"), ("UserGroup", "usergroup")))):
+        for layout in ("shared", "separate"):
+            pinned.append({"k": -9 - k_ * 2 - (layout == "separate"), "app": "rest_api", "layout": layout, "other_app": layout == "shared", "models": [
+                {"cls": c_, "table": t_, "tkind": "lower", "doc": "A %s." % c_, "cols": [["email", "String", "the email", True, None], ["n", "Integer", "a count", False, None]],
+                 "pk_kind": "explicit-first", "crud": "CRD", "route": "/api/" + t_, "prefix": "/api"} for c_, t_ in (first, second)]})
     for i, odd in enumerate(COLNAMES_ODD):
         pinned.append({"k": -100 - i, "app": "app", "layout": "separate", "other_app": False, "models": [
             {"cls": "Thing", "table": "thing", "tkind": "snake", "doc": "A thing", "pk_kind": "explicit-last", "crud": "CRD", "route": "/things", "prefix": "",
